@@ -131,10 +131,29 @@ def mk_expr(cont, pm, lm):
     return base
 
 
+# other constructions of the same type state (the table is about the STATE, whatever road led to it): every permitted control
+# program is also run on a region made each of these ways
+A4 = "StackByteArray::<4>::from([1u8, 2, 3, 4])"
+ROUTES = {
+    ("array", "rw", "locked"): [A4 + ".mlock().unwrap()", "HeapByteArray::<4>::new_locked().unwrap()", "HeapByteArray::<4>::gen_locked().unwrap()",
+                              "HeapByteArray::<4>::from(" + A4 + ").mlock().unwrap()"],
+    ("array", "rw", "unlocked"): [A4 + ".mlock().unwrap().munlock().unwrap()"],
+    ("array", "ro", "unlocked"): [A4 + ".mprotect_readonly().unwrap()", A4 + ".mlock().unwrap().mprotect_readonly().unwrap().munlock().unwrap()"],
+    ("array", "ro", "locked"): ["HeapByteArray::<4>::from_slice_into_readonly_locked(&[1u8, 2, 3, 4]).unwrap()", "HeapByteArray::<4>::gen_readonly_locked().unwrap()",
+                              "HeapByteArray::<4>::new_readonly_locked().unwrap()", A4 + ".mprotect_readonly().unwrap().mlock().unwrap()"],
+    ("array", "na", "unlocked"): [A4 + ".mprotect_readonly().unwrap().mprotect_noaccess().unwrap()"],
+    ("bytes", "rw", "locked"): ["HeapBytes::from(&[1u8, 2, 3, 4][..]).mlock().unwrap()"],
+    ("bytes", "rw", "unlocked"): ["HeapBytes::from(&[1u8, 2, 3, 4][..]).mlock().unwrap().munlock().unwrap()"],
+    ("bytes", "ro", "locked"): ["HeapBytes::from_slice_into_readonly_locked(&[1u8, 2, 3, 4]).unwrap()", "HeapBytes::from(&[1u8, 2, 3, 4][..]).mlock().unwrap().mprotect_readonly().unwrap()"],
+    ("bytes", "ro", "unlocked"): ["HeapBytes::from_slice_into_readonly_locked(&[1u8, 2, 3, 4]).unwrap().munlock().unwrap()"],
+    ("bytes", "na", "unlocked"): ["HeapBytes::from(&[1u8, 2, 3, 4][..]).mlock().unwrap().munlock().unwrap().mprotect_noaccess().unwrap()"],
+}
+
+
 USE_SAME = {"rw": "y.as_mut_slice()[0] = 9; std::hint::black_box(y.as_slice()[0]);", "ro": "std::hint::black_box(y.as_slice()[0]);", "na": ""}
 
 
-def program(cont, pm, lm, snippet):
+def program(cont, pm, lm, snippet, route=None):
     snippet = snippet.replace("{USE_SAME}", USE_SAME[pm])
     return """#![allow(unused)]
 use dryoc::protected::*;
@@ -145,7 +164,7 @@ fn main() {
     let mut x: T = mk();
     %s
 }
-""" % (CONTS[cont], PMS[pm], LMS[lm], mk_expr(cont, pm, lm), snippet)
+""" % (CONTS[cont], PMS[pm], LMS[lm], route or mk_expr(cont, pm, lm), snippet)
 
 
 def stream_program(mode, call):
@@ -237,6 +256,10 @@ def run(tier, seed):
             runnable = want == "permit" and not (pm == "na" and lm == "locked")
             jobs.append(("c_%s_%s_%s_%s_%s" % (cont, pm, lm, op, vname), program(cont, pm, lm, snippet), rlib, deps, outdir, runnable))
             info.append((i, vname, primary, want))
+            if primary and runnable:
+                for ri, route in enumerate(ROUTES.get((cont, pm, lm), [])):
+                    jobs.append(("r%d_%s_%s_%s_%s_%s" % (ri, cont, pm, lm, op, vname), program(cont, pm, lm, snippet, route), rlib, deps, outdir, True))
+                    info.append((i, "%s via route %d" % (vname, ri), True, want))
     # extra probes (outside the table): forbidden → must not compile; otherwise, if it compiles it must run cleanly
     extra_lines = []
     for cont in CONTS:
